@@ -22,7 +22,8 @@ RULE = ('scenarios = 2 or 3 calls (equal and different arguments) on shared modu
         'wma_world_best / wma_athlon_*, the validation caches filled to their limit - each in a cold (lazy tables reset) and a '
         'warm variant; schedules: the harness owns the scheduler (threads serialised by sys.settrace, pre-empted only at athlib '
         'source lines): ALL single pre-emptions at every yield point of every thread and first-runner choice, two pre-emptions '
-        'exhaustively when the product of yield counts is small and Hypothesis-drawn otherwise, 3 threads by drawn schedules; '
+        'exhaustively when one of them falls in the first lines of a call (where lazy initialisation happens) or the product of '
+        'yield counts is small, seeded / Hypothesis-drawn otherwise, 3 threads by drawn schedules; '
         'oracle: each thread\'s (return | exception type, value) equals the same call run alone on the same initial state; '
         'non-trivial = a schedule whose pre-emption falls inside a function that touches the shared objects (athlib frames '
         'between the first and the last access), measured as: the switch happened strictly inside the pre-empted call '
@@ -46,10 +47,10 @@ def reset_cold():
     mod('athlon_score')._scoring_objects = None
     mod('hungarian_score')._table = None
     mod('sportshall_score')._DB = None
-    for g in (athlib.ag2015, athlib.ag2023, athlib.aag):
-        g.__dict__.pop('_data', None)
-        for k in ('_fx', '_fx1', '_pfac', '_ax', '_ax1', '_page'):
-            g.__dict__.pop(k, None)
+    # the shared graders go back to their just-imported state (whatever attributes a first call creates lazily -
+    # data, scratch, locks - are dropped), so "very first call" really is one
+    from checks.c14 import reset_graders
+    reset_graders()
     u = mod('utils')
     u._schema_valid_cache.clear()
     u._valid_against_schema_cache.clear()
@@ -238,6 +239,24 @@ def shard(ctx, payload):
             for b in range(n):
                 if b != a:
                     do([(a, k, b)], a)
+    # two pre-emptions with one of them EARLY (the first lines of a call are where lazy initialisation is tested and
+    # performed): a stops within its first lines x every point of b, and every point of a x b stops within its first lines
+    early = 10 if thorough else 4
+    cap_b, cap_a = (100000, 100000) if thorough else (120, 60)
+    if not warm or thorough:
+        for a in range(n):
+            for b in range(n):
+                if a == b:
+                    continue
+                step = max(1, -(-(counts[b] + 1) // cap_b))
+                for k1 in range(min(early, counts[a] + 1)):
+                    for k2 in range(rng.randrange(step), counts[b] + 1, step):
+                        do([(a, k1, b), (b, k2, a)], a)
+                stepa = max(1, -(-(counts[a] + 1) // cap_a))
+                for k2 in range(min(early, counts[b] + 1)):
+                    for k1 in range(early + rng.randrange(stepa), counts[a] + 1, stepa):
+                        do([(a, k1, b), (b, k2, a)], a)
+    ctx.label('early-window-double-preemptions')
     # two pre-emptions: a runs to k1, b runs to k2, back to a (then the rest)
     pairs = []
     for a in range(n):
